@@ -66,7 +66,9 @@ def judge(cid, src, inputs, mode, feats, reduce=True):
       reduce = False
   out = {'case': cid, 'verdict': r['verdict'],
          'counters': {'run_pairs': r['runs'], 'exception_runs': r['exc_runs'],
-                      'log_events': r['log_events'], 'conversions': 1}}
+                      'log_events': r['log_events'], 'conversions': 1,
+                      'watchdog_inconclusive_inputs': r.get('watchdog_inconclusive', 0),
+                      'reference_timeouts': r.get('ref_timeouts', 0)}}
   if r['verdict'] == 'ok':
     out['nontrivial'] = r['runs'] > 0
     out['sig'] = mode + '|' + grammar.shape_signature(src)
